@@ -70,8 +70,37 @@ TOLERATED = {
 PID = 'proc-16'
 
 
+_sys_cache = {}
+
+
 def systematic(tier):
-    return []
+    """Every sequence of <= 2 (thorough 3) messages / resumes at successive quiescence points of the canonical programs."""
+    if tier in _sys_cache:
+        return _sys_cache[tier]
+    import itertools
+    alphabet = [('rpc', i) for i in INTENTS] + [('bcast', i) for i in ('pause', 'play', 'kill')] + [('resume', None)]
+    cases = []
+    canon = programs.canonical_programs()
+    for name in ('wait1', 'wait2', 'async1', 'sync2'):
+        for length in range(1, (2 if tier == 'quick' else 3) + 1):
+            for combo in itertools.product(alphabet, repeat=length):
+                if all(kind == 'resume' for kind, _ in combo):
+                    continue
+                schedule = []
+                for index, (kind, intent) in enumerate(combo):
+                    if kind == 'resume':
+                        schedule.append({'act': 'resume', 'q': index})
+                    else:
+                        action = {'act': kind, 'intent': intent, 'q': index}
+                        if intent in ('pause', 'kill'):
+                            action['msg'] = f'{intent}-s{index}'
+                        if kind == 'rpc':
+                            action['via'] = 'thread' if index % 2 else 'async'
+                        schedule.append(action)
+                cases.append({'program': canon[name], 'schedule': schedule, 'opts': {'comm': True, 'pid': PID},
+                              'flavour': 'quiescent', 'origin': f'systematic:{name}'})
+    _sys_cache[tier] = cases
+    return cases
 
 
 def gen_message(rng, index, timed):
@@ -153,7 +182,7 @@ def process_view(events):
     """What the process itself did and told its listeners (independent of how requests reached it)."""
     keep = []
     for event in events:
-        if event[0] in ('enter', 'step', 'resumed', 'notify', 'callback', 'cleanup', 'raise'):
+        if event[0] in ('enter', 'step', 'resumed', 'notify', 'callback', 'cleanup', 'raise', 'qstate'):
             keep.append(event)
     return keep
 
@@ -298,13 +327,22 @@ def _run_once(case, result, direct=False, broadcast_fault=None):
             engine.sample()
             return holder
 
-        engine.fire = fire
+        plain_fire = fire
+
+        def fire_with_state(index, where):
+            if where == 'quiescent':
+                # what the previous requests have left behind, as seen when the loop is quiescent again
+                engine.world.rec('qstate', proc.state.value, proc.paused, proc.status)
+            return plain_fire(index, where)
+
+        engine.fire = fire_with_state
         if direct:
             for action, original in zip(engine.schedule, case['schedule']):
                 if action['act'] == 'direct':
                     action['orig_act'] = original['act']
 
         engine.run_schedule()
+        engine.world.rec('qstate', proc.state.value, proc.paused, proc.status)
         drive = engine.drive_out()
         engine.run_to_quiescence()
 
